@@ -194,6 +194,7 @@ type prodM struct {
 	recancelled    bool  // a second cancel transaction was accepted
 	penAfterExpiry bool  // illegal evidence processed after StakeUntil had passed
 	penAfterCancel bool  // illegal evidence processed after the cancel transaction (DPoS v1)
+	retired        bool // DPoS v1 producer still registered (not cancelled) when DPoSV2ActiveHeight was processed
 	deposited      int64 // everything ever sent to the deposit address from outside
 	withdrawn      int64 // everything that left the deposit address (inputs − change)
 }
@@ -237,6 +238,8 @@ func (p *prodM) cause() string {
 		return "|evidence-after-expiry"
 	case p.penAfterCancel:
 		return "|evidence-after-cancel"
+	case p.retired:
+		return "|retired-at-activation"
 	}
 	return ""
 }
@@ -621,6 +624,13 @@ func (in *inst) block(txs ...interfaces.Transaction) {
 	in.h++
 	in.st.ProcessBlock(&types.Block{Header: ctypes.Header{Height: in.h, Timestamp: 1700000000 + in.h*2}, Transactions: txs}, nil, 0)
 	in.changed = true
+	if W.activeAt != 0 && in.h == W.activeAt {
+		for _, m := range in.prod {
+			if m.registered && !m.v2 && !m.cancelled {
+				m.retired = true
+			}
+		}
+	}
 }
 
 // creditDeposits registers the outputs of tx that pay to a deposit address.
@@ -1081,7 +1091,7 @@ func (in *inst) Digest() string {
 				su = -1
 			}
 		}
-		fmt.Fprintf(&sb, "s%d i%d t%d d%d p%d a%d c%d u%d v%d m[%d %d %v %v %v %v]", pr.State(), pr.Identity(), pr.TotalAmount(), pr.DepositAmount(), pr.Penalty(), age, cage, su, pr.DposV2Votes(), m.penalties, m.lock(in.h), m.cancelled, m.recancelled, m.penAfterExpiry, m.penAfterCancel)
+		fmt.Fprintf(&sb, "s%d i%d t%d d%d p%d a%d c%d u%d v%d m[%d %d %v %v %v %v %v]", pr.State(), pr.Identity(), pr.TotalAmount(), pr.DepositAmount(), pr.Penalty(), age, cage, su, pr.DposV2Votes(), m.penalties, m.lock(in.h), m.cancelled, m.recancelled, m.penAfterExpiry, m.penAfterCancel, m.retired)
 		vals := make([]int64, 0, len(m.utxos))
 		for _, u := range m.utxos {
 			vals = append(vals, u.value)
